@@ -79,3 +79,128 @@ Proof.
   split; [|split; vm_compute; reflexivity].
   repeat constructor.
 Qed.
+
+(* ------------------------------------------------------------------ C19_when over the tree-builder model *)
+(* The executable tree-builder model coq/Tree (tied to html5ever event for event by ./check C02) answers the part of
+   C19_when that is about WHICH tokens raise the indicator.  All statements are about TreeModel.process_token, on
+   states satisfying the model's invariant TInv, for tokens respecting the tokenizer protocol (token_ok) whose
+   attribute values are scalar sequences (scalar_token).  Panic 99 / OutOfFuel = the ghost shape assertion and the
+   unproved fuel bound of C02_tree_no_panic_partial.
+   NOT proved (stays judged on the implementation by lib/checks/c19.py): the tokenizer / driver side - that feed()
+   suspends exactly when the tree builder answers with the indicator, once per such token, and that resuming the
+   TOKENIZER continues as if nothing had happened; and completeness across insertion modes is given as the dispatch
+   table plus the arm theorem, not as a single "iff the element ends up inserted" statement. *)
+From Coq Require Import String.
+From HV Require Tree.TreeTypes Tree.TreeTables Tree.TreeModelHelpers Tree.TreeModelRules Tree.TreeModel Tree.TreeHoare
+  Tree.TreeInvDefs Tree.TreeInvPrims Tree.TreeInvHelpers Tree.TreeInvDispatch Tree.TreeInvRules Tree.TreeInvMain Tree.TreeEncoding.
+
+(* (a) soundness: an EncodingIndicator l is only ever the answer to a START tag selected by the charset / http-equiv
+   arm of the "in head" rules (arm 4: meta, and - only with deviation switch 7, repaired in /repo by 9a3cd45 - base,
+   basefont, bgsound, link), whatever the current insertion mode; l is the label property C19 names
+   (MetaSpec.meta_label_spec of the tag's attributes); and by then the sink has been asked to create an HTML element
+   with the tag's name and attributes and to insert it (the element is already in the tree). *)
+Theorem C19_indicator_sound_partial :
+  forall s tk line, TreeInvDefs.TInv s -> TreeInvMain.token_ok s tk -> TreeInvMain.scalar_token tk ->
+  match TreeModel.process_token tk line s with
+  | TreeTypes.Ok (TreeTypes.SEncoding l) s' =>
+    exists name sc attrs dup,
+      tk = TreeTypes.TTag TreeTypes.StartTag name sc attrs dup /\
+      TreeTables.first_match TreeTables.heads_in_head
+        (TreeTypes.KTag (TreeInvMain.tag_of_token TreeTypes.StartTag name sc attrs dup)) = 4 /\
+      (TreeTypes.dev_on s' 7 = false -> name = TreeTypes.nm "meta"%string) /\
+      meta_label_spec attrs = Some l /\
+      TreeEncoding.meta_in_tree s' name (TreeModel.conv_attrs attrs) /\ TreeInvDefs.TInv s'
+  | TreeTypes.Ok _ s' => TreeInvDefs.TInv s'
+  | TreeTypes.Panic n => n = 99%N
+  | TreeTypes.OutOfFuel => True
+  end.
+Proof. exact TreeEncoding.indicator_sound. Qed.
+Print Assumptions C19_indicator_sound_partial.
+
+(* ... for every token of every protocol-respecting run *)
+Theorem C19_indicator_sound_run_partial :
+  forall toks s, TreeInvDefs.TInv s -> TreeInvMain.protocol s toks -> TreeEncoding.indicators_sound s toks.
+Proof. exact TreeEncoding.indicator_sound_run. Qed.
+Print Assumptions C19_indicator_sound_run_partial.
+
+(* the label the model computes is the one C19_label_partial is about *)
+Theorem C19_model_label_is_spec :
+  forall k name sc attrs dup,
+    TreeInvHelpers.model_label (TreeInvMain.tag_of_token k name sc attrs dup) = meta_label_spec attrs.
+Proof. exact TreeEncoding.model_label_is_meta_label_spec. Qed.
+Print Assumptions C19_model_label_is_spec.
+
+(* (b) completeness of the arm: a start tag that reaches the arm (meta; or any of the arm's tags under deviation 7)
+   and declares a label yields the indicator with that label; one that declares none yields DoneAckSelfClosing *)
+Theorem C19_meta_arm_complete_partial :
+  forall in_body s g l,
+    TreeInvDefs.TInv s -> TreeInvPrims.late s -> TreeInvHelpers.scalar_tag g ->
+    TreeTables.first_match TreeTables.heads_in_head (TreeTypes.KTag g) = 4 ->
+    (TreeTypes.dev_on s 7 || TreeModelHelpers.is_n (TreeTypes.tg_name g) "meta")%bool = true ->
+    TreeInvHelpers.model_label g = Some l ->
+    TreeHoare.wp (TreeModelRules.step_in_head_gen in_body (TreeTypes.KTag g))
+      (fun r s' => r = TreeTypes.PEncoding l /\ TreeInvDefs.TInv s') s.
+Proof. exact TreeEncoding.in_head_meta_arm_complete. Qed.
+Print Assumptions C19_meta_arm_complete_partial.
+
+Theorem C19_meta_arm_silent_partial :
+  forall in_body s g,
+    TreeInvDefs.TInv s -> TreeInvPrims.late s -> TreeInvHelpers.scalar_tag g ->
+    TreeTables.first_match TreeTables.heads_in_head (TreeTypes.KTag g) = 4 ->
+    TreeInvHelpers.model_label g = None ->
+    TreeHoare.wp (TreeModelRules.step_in_head_gen in_body (TreeTypes.KTag g))
+      (fun r s' => r = TreeTypes.DoneAckSelfClosing /\ TreeInvDefs.TInv s') s.
+Proof. exact TreeEncoding.in_head_meta_arm_silent. Qed.
+Print Assumptions C19_meta_arm_silent_partial.
+
+(* which arm a meta start tag selects in each insertion mode (Initial ... AfterAfterFrameset, then the foreign-content
+   rules), on the dispatch tables regenerated from rules.rs; the comment at TreeEncoding.meta_dispatch_table says what
+   each of these arms does (delegation to "in head" / Reprocess / foster parenting / ignored / break-out) *)
+Theorem C19_meta_dispatch_table :
+  map (fun hs => TreeTables.first_match hs TreeEncoding.meta_start)
+    [TreeTables.heads_initial; TreeTables.heads_before_html; TreeTables.heads_before_head; TreeTables.heads_in_head;
+     TreeTables.heads_in_head_noscript; TreeTables.heads_after_head; TreeTables.heads_in_body; TreeTables.heads_text;
+     TreeTables.heads_in_table; TreeTables.heads_in_table_text; TreeTables.heads_in_caption;
+     TreeTables.heads_in_column_group; TreeTables.heads_in_table_body; TreeTables.heads_in_row; TreeTables.heads_in_cell;
+     TreeTables.heads_in_template; TreeTables.heads_after_body; TreeTables.heads_in_frameset;
+     TreeTables.heads_after_frameset; TreeTables.heads_after_after_body; TreeTables.heads_after_after_frameset;
+     TreeTables.heads_foreign]
+  = [3; 6; 7; 4; 5; 6; 4; 3; 14; 2; 2; 9; 5; 5; 4; 2; 6; 9; 7; 5; 6; 3].
+Proof. exact TreeEncoding.meta_dispatch_table. Qed.
+Print Assumptions C19_meta_dispatch_table.
+
+(* in "in frameset", "after frameset" and "after after frameset" a meta start tag is dropped: one parse error, no
+   element, no indicator *)
+Theorem C19_meta_ignored_in_frameset_modes :
+  forall s g, TreeTypes.tg_kind g = TreeTypes.StartTag -> TreeTypes.tg_name g = TreeTypes.nm "meta"%string ->
+    (TreeTypes.mode s = TreeTypes.InFrameset \/ TreeTypes.mode s = TreeTypes.AfterFrameset \/
+     TreeTypes.mode s = TreeTypes.AfterAfterFrameset) ->
+    exists k, TreeModelRules.step (TreeTypes.mode s) (TreeTypes.KTag g) s =
+              TreeTypes.Ok TreeTypes.Done
+                (TreeTypes.set_out (TreeTypes.EvOp Dom.DomSpec.OpParseError ::
+                                    TreeTypes.EvArm (TreeTypes.mode_id (TreeTypes.mode s)) k :: TreeTypes.out s) s).
+Proof. exact TreeEncoding.meta_ignored_in_frameset_modes. Qed.
+Print Assumptions C19_meta_ignored_in_frameset_modes.
+
+(* (c) transparency, tree-builder side: computing the indicator changes nothing in the builder state except one
+   coverage marker of the model's log (not a sink call); the loop then returns it as a plain value *)
+Theorem C19_indicator_transparent_partial :
+  forall t s, TreeInvHelpers.scalar_tag t ->
+    exists r, (TreeModelHelpers.meta_like_result t s = TreeTypes.Ok r s /\ r = TreeTypes.DoneAckSelfClosing) \/
+              (exists k l, TreeModelHelpers.meta_like_result t s =
+                             TreeTypes.Ok (TreeTypes.PEncoding l) (TreeTypes.set_out (TreeTypes.EvArm 30 k :: TreeTypes.out s) s) /\
+                           r = TreeTypes.PEncoding l).
+Proof. exact TreeEncoding.meta_like_result_transparent. Qed.
+Print Assumptions C19_indicator_transparent_partial.
+
+(* non-vacuity: <meta charset=x> as first token and inside <svg> (break-out) yields the indicator x, after <frameset> none *)
+Theorem C19_model_examples :
+  match TreeModel.run_tokens (TreeModel.init_state TreeInvMain.ex_opts) [(TreeEncoding.meta_tok, 1%N)] [] with
+  | TreeModel.RunOk _ res => res = [TreeTypes.SEncoding (TreeTypes.nm "x"%string)] | _ => False end /\
+  match TreeModel.run_tokens (TreeModel.init_state TreeInvMain.ex_opts)
+          [(TreeTypes.TTag TreeTypes.StartTag (TreeTypes.nm "svg"%string) false [] false, 1%N); (TreeEncoding.meta_tok, 1%N)] [] with
+  | TreeModel.RunOk _ res => res = [TreeTypes.SContinue; TreeTypes.SEncoding (TreeTypes.nm "x"%string)] | _ => False end /\
+  match TreeModel.run_tokens (TreeModel.init_state TreeInvMain.ex_opts)
+          [(TreeTypes.TTag TreeTypes.StartTag (TreeTypes.nm "frameset"%string) false [] false, 1%N); (TreeEncoding.meta_tok, 1%N)] [] with
+  | TreeModel.RunOk _ res => res = [TreeTypes.SContinue; TreeTypes.SContinue] | _ => False end.
+Proof. exact TreeEncoding.ex_indicator. Qed.
